@@ -14,7 +14,8 @@ RULE = (
     "seeded sort-directed closed queries over Select/Where/SelectMany/First/Count/len/Sum/Max/Min in function form (half "
     "of them converted from method form by the shipped pass), nested lambdas, called lambdas with positional and keyword "
     "arguments, tuple/list/dict construction with constant projection, arithmetic/boolean/conditional expressions, method "
-    "calls with arguments; binder naming schemes all-distinct / all-identical / inner re-use of a live outer name; each on "
+    "calls with arguments; binder naming schemes all-distinct / all-identical / inner re-use of a live outer name / one to "
+    "three parameters renamed to arg_0 .. arg_5 (the names the simplifier generates next); each on "
     "three datasets (Lean ev) and a sample on two more in CPython; non-trivial = at least 8 AST nodes; distinct = source text"
 )
 EXPLANATION = (
@@ -29,8 +30,10 @@ EXPLANATION = (
     "names, no capture when a lambda is nested under another's parameter, parameters not used as callee names) as explicit "
     "guards. Theorem simpCk_refines_simp: whenever simpCk returns a result, simp - the model compared with the code on every "
     "run - returns the same result, so simplify_sound_of_checked states the preservation for the output of simp itself on "
-    "every query the checked model accepts. A query on which a guard fires (a lambda parameter used as a function, a "
-    "generated arg_N name already in use, ...) is outside the theorem's domain and is covered by the correspondence and "
+    "every query the checked model accepts. simplify / simplifyCk start, like the code since repo fix e08ed1d, from the counter "
+    "moved past every arg_N name the query holds (nextArg), and the generated family c02-argN renames parameters to "
+    "arg_0 .. arg_5. A query on which a guard fires (a lambda parameter used as a function, "
+    "...) is outside the theorem's domain and is covered by the correspondence and "
     "the evaluation oracles only; the evidence counts them per guard (outside-checked-model). Comprehensions are refused "
     "by simpCk (they are lowered by the sugar pass before the simplifier runs; the implementation captures a comprehension "
     "target, see DESIGN 12.5). Per run: simplify_chained_calls vs the compiled Lean simp on every generated query (modulo "
@@ -69,31 +72,32 @@ def comprehension_probe(ctx, key):
 ARGN_PROBE = "Select(ds, lambda x: Select(x.jets, lambda arg_0: arg_0.pt + x.met))"
 
 
-def argn_probe(ctx, key):
-    """the known finding: a query that already holds a name of the form arg_N (for instance the simplifier's own output,
-    simplified again in a fresh process) - the fresh names come from a counter that does not look at the names in use"""
+def argn_family(rng, n):
+    """queries that already hold names of the form arg_N (for instance the simplifier's own output, simplified again in a
+    fresh process): one to three lambda parameters of a generated query are renamed, consistently, to arg_0 .. arg_5 - the
+    names the simplifier would generate next (formerly the open finding C02-generated-name-already-in-use; repaired in
+    the repo by reserve_arg_names, modelled by nextArg in Model/Simplify.lean)"""
     import ast
-    import copy
+    import re
 
-    import pyworld
-    from common import rich_dataset
-
-    a = simplify.parse_query(ARGN_PROBE)
-    try:
-        out = simplify.run_simplifier(copy.deepcopy(a))
-    except Exception as e:
-        ctx.violate({"src": ARGN_PROBE, "error": f"{type(e).__name__}: {e}"[:200]}, "the simplifier raised", key=key)
-        return
-    w = pyworld.to_world(rich_dataset(ctx.rng))
-    want = pyworld.from_world(pyworld.py_eval(a, w))
-    try:
-        have = pyworld.from_world(pyworld.py_eval(out, w))
-    except Exception as e:
-        have = f"raises {type(e).__name__}: {e}"[:160]
-    ctx.count("argn-probe", True, tags=["arg_N probe"])
-    if have != want:
-        ctx.violate({"src": ARGN_PROBE, "out": ast.unparse(out), "python_original": repr(want)[:150], "python_simplified": repr(have)[:150]},
-                    "a query that already uses a name of the form arg_N: the generated parameter name captures it", key=key)
+    out = [ARGN_PROBE]
+    tries = 0
+    while len(out) < n and tries < 20 * n:
+        tries += 1
+        src = rng.choice([simplify.gen_c02, simplify.gen_c02, lambda r: reuse_family(r, 1)[0]])(rng)
+        try:
+            tree = ast.parse(src, mode="eval")
+        except SyntaxError:
+            continue
+        params = sorted({a.arg for nd in ast.walk(tree) if isinstance(nd, ast.Lambda) for a in nd.args.args})
+        if not params:
+            continue
+        chosen = rng.sample(params, min(len(params), rng.choice([1, 1, 2, 3])))
+        ks = rng.sample(range(6), len(chosen))
+        for old, k in zip(chosen, ks):
+            src = re.sub(rf"(?<![\w.'\"]){re.escape(old)}(?![\w'\"])", f"arg_{k}", src)
+        out.append(src)
+    return out
 
 
 def reuse_family(rng, n):
@@ -124,7 +128,7 @@ def reuse_family(rng, n):
 
 def run(ctx):
     comprehension_probe(ctx, "C02-comprehension-target-captured")
-    argn_probe(ctx, "C02-generated-name-already-in-use")
+    simplify.check_queries(ctx, argn_family(ctx.rng, ctx.n(150, 4000)), "c02-argN")
     simplify.check_queries(ctx, reuse_family(ctx.rng, ctx.n(60, 1500)), "c02-reuse")
     n = ctx.n(1200, 60000)
     done = 0
